@@ -320,7 +320,7 @@ def generate(rng, tier):
     return {
         "world": {"files": m.files}, "status": m.status, "why": m.why, "root": root, "base": base,
         "features": sorted(m.feats), "lane": lane, "fault": fault, "twice": twice, "tags": tags,
-        "spelling": rng.choice(["rel", "rel", "abs", "cwd"]), "hashseed": rng.below(1 << 32),
+        "spelling": rng.choice(["rel", "rel", "abs", "cwd", "symlink"]), "hashseed": rng.below(1 << 32),
         "lang_reach": list(m.order),
     }
 
@@ -384,7 +384,12 @@ def execute(case):
         if lane == "normal" and set(case["features"]) <= RUSTC_OK_FEATS and "lang_reach" in case:
             rustc_crosscheck(case, sc, v)
         snap0 = core.snapshot(sc.root)
-        if case["spelling"] == "abs":
+        if case["spelling"] == "symlink":
+            # the crate is reached through a symbolic link to its directory
+            os.symlink(case["base"], os.path.join(sc.root, "clink"))
+            snap0 = core.snapshot(sc.root)
+            cwd, arg = ".", os.path.join("clink", os.path.relpath(root, case["base"]))
+        elif case["spelling"] == "abs":
             cwd, arg = ".", "$ROOT/" + root
         elif case["spelling"] == "cwd":
             cwd, arg = os.path.dirname(root) or ".", os.path.basename(root)
@@ -393,7 +398,7 @@ def execute(case):
         argv = [arg]
         if lane == "skip_children":
             argv = ["--config", "skip_children=true"] + argv
-        inv = {"argv": argv, "cwd": cwd, "hashseed": case["hashseed"], "plan": plan}
+        inv = {"argv": argv, "cwd": cwd, "hashseed": case["hashseed"], "plan": plan + core.legal_perturbation(case["hashseed"] // 3)}
         if lane == "stdin":
             inv = {"argv": [], "cwd": os.path.dirname(root) or ".", "hashseed": case["hashseed"],
                    "stdin": world["files"][root]}
@@ -418,7 +423,7 @@ def execute(case):
             v.sample = {"lane": lane, "files": sorted(world["files"])}
             return v
         if lane == "fault":
-            if plan and not any(e.fault for e in res.events):
+            if plan and not any(e.fault and "errno=4 " not in e.raw + " " for e in res.events):
                 v.probe("fault-not-reached")
                 return v
             v.planned(case["fault"]["kind"]); v.fired(case["fault"]["kind"])
@@ -461,6 +466,8 @@ def execute(case):
         base_sig = [(e.op, e.path if isinstance(e.path, str) else "", e.res) for e in res.events if e.op in ("open", "rename", "write")]
         for k in (1, 2):
             sc.fresh_world(world)
+            if case["spelling"] == "symlink":
+                os.symlink(case["base"], os.path.join(sc.root, "clink"))
             inv2 = dict(inv)
             inv2["hashseed"] = (case["hashseed"] + k * 15485863) & 0xFFFFFFFF
             r2 = core.run_inv(sc, inv2)
